@@ -1,5 +1,6 @@
 import Ntrip.Model.Bits
 import Ntrip.Model.SegmentT
+import Ntrip.Model.Classify
 /-! Operations of the line protocol.  Every branch that rejects input answers `bad-op`
     (never a default value). -/
 namespace Driver
@@ -68,6 +69,12 @@ def parseHexes : List String → Option (List Bytes)
     | _, _ => none
 
 def handle : List String → String
+  | ["classify", t] =>
+    match t.toInt? with
+    | some typ =>
+      s!"msm4={isMSM4 typ} msm7={isMSM7 typ} msm={isMSM typ} const={(constellation typ).replace " " "_"} " ++
+      s!"hdr={headerAccepts typ} analyse={(analyseDecoder typ).toString} ts={isMSM typ} title={titleNonEmpty typ}"
+    | none => "bad-op"
   | ["crc", h] =>
     match parseHex h with
     | some b => s!"ok {crc24q b}"
